@@ -271,7 +271,7 @@ fn specs() -> Vec<CheckSpec> {
     CheckSpec {
         id: "C15",
         profile: Profile::Byz,
-        more_profiles: &[Profile::Byz, Profile::Lifecycle, Profile::Byz, Profile::TwoHop],
+        more_profiles: &[Profile::Byz, Profile::Lifecycle, Profile::Byz, Profile::TwoHop, Profile::T22],
         mk: mk_c15,
         level: "fault_enumeration",
         rule: "same worlds as C04; each successful fund-moving instruction (swap, swap_v2, two-hop x2, increase/decrease x4, by-token-amounts, reposition, collect fees / reward / protocol fees x6, update-fees, set-reward-emissions x2, initialise-reward x2) is replayed on forks of its pre-state with one account slot at a time substituted by a well-formed account of the same type that belongs elsewhere: another pool, a vault / token account / mint of another mint, another (non-vault) token account of the same mint in a vault slot, a tick array or position or oracle of another pool, another position of the same pool, another program (incl. the other token program), the same pool for both two-hop legs; slots where another account is legitimately acceptable (any token account of the right mint as source/destination, same-pool arrays in swaps, same-pool positions in update-fees) are excluded; every substitution must be rejected; the matrix is reported cell by cell; a case is one (instruction, slot, substitute kind) cell",
